@@ -39,6 +39,11 @@ TYPES = {"int": int, "str": str, "numbers": (int, float, Decimal), "none": type(
 @st.composite
 def sel_case(draw, tier):
     p = draw(gen.pool(POOLV, 3, 6))
+    # sequences that differ only late: same prefix, then bytes vs text / None vs number / list vs tuple
+    base = draw(st.lists(gen.scalar, max_size=2))
+    for tail_ in draw(st.lists(st.sampled_from([b"a", "a", None, 1, 1.0, "b", b"b", (), []]), max_size=3)):
+        p.append(tuple(base) + (tail_,))
+        p.append(list(base) + [tail_])
     cell = st.sampled_from(p)
     nf = draw(st.sampled_from([1, 2, 3]))
     hdr = ["a", "b", "c"][:nf]
